@@ -181,7 +181,7 @@ func parsePossibility(input *input, relation *Relation) error {
 			return nil
 		}
 		/* Not a control, let's append */
-		ret.Name += string(input.Next())
+		ret.Name += string([]byte{input.Next()})
 	}
 }
 
@@ -206,7 +206,7 @@ func parseSubstvar(input *input, relation *Relation) error {
 			relation.Possibilities = append(relation.Possibilities, *ret)
 			return nil
 		}
-		ret.Name += string(input.Next())
+		ret.Name += string([]byte{input.Next()})
 	}
 }
 
@@ -225,7 +225,7 @@ func parseMultiarch(input *input, possi *Possibility) error {
 			possi.Arch = arch
 			return nil
 		default:
-			name += string(input.Next())
+			name += string([]byte{input.Next()})
 		}
 	}
 	return nil
@@ -342,7 +342,7 @@ func parsePossibilityNumber(input *input, version *VersionRelation) error {
 			version.Number = strings.TrimRight(version.Number, " \t\r\n")
 			return nil
 		}
-		version.Number += string(input.Next())
+		version.Number += string([]byte{input.Next()})
 	}
 }
 
@@ -405,7 +405,7 @@ func parsePossibilityArch(input *input, possi *Possibility) error {
 			)
 			return nil
 		}
-		arch += string(input.Next())
+		arch += string([]byte{input.Next()})
 	}
 }
 
@@ -454,7 +454,7 @@ func parsePossibilityStage(input *input, stageSet *StageSet) error {
 			stageSet.Stages = append(stageSet.Stages, stage)
 			return nil
 		}
-		stage.Name += string(input.Next())
+		stage.Name += string([]byte{input.Next()})
 	}
 }
 
